@@ -173,7 +173,7 @@ def gen_antenna(rng, family=None, ground=None, max_pulses=36, tags='auto'):
         raise ValueError(family)
     # tags
     if tags == 'auto':
-        mode = rng.choice(['none', 'none', 'explicit', 'gaps', 'perm', 'mixed'])
+        mode = rng.choice(['none', 'none', 'explicit', 'gaps', 'perm', 'mixed', 'lowmixed'])
     else:
         mode = tags
     k = len(wires)
@@ -190,6 +190,11 @@ def gen_antenna(rng, family=None, ground=None, max_pulses=36, tags='auto'):
         ts = rng.sample(range(1, 2 * k + 2), k)
         for w, t in zip(wires, ts):
             w['tag'] = t if rng.random() < 0.5 else None
+    elif mode == 'lowmixed':
+        # untagged objects first, then small explicit tags: the automatic tags must avoid the explicit ones given later
+        ts = rng.sample(range(1, k + 1), k)
+        for i, (w, t) in enumerate(zip(wires, ts)):
+            w['tag'] = None if (i == 0 or rng.random() < 0.4) else t
     media = None
     if ground == 'ideal':
         media = []
